@@ -58,6 +58,7 @@ struct VfResult {         // child -> parent (MAP_SHARED)
   int verdict;
   char key[160];
   char msg[600];
+  char tag[96];
   uint64_t trace_hash;
   uint64_t outcome_hash;
   uint64_t same_hash;
